@@ -7,5 +7,5 @@ import (
 )
 
 func main() {
-	minigen.Main("c03", minigen.C03Scenario, minigen.C03CompileProbes)
+	minigen.Main("c03", minigen.C03Scenario, minigen.C03CompileProbes, minigen.C03Fixed)
 }
